@@ -1,6 +1,211 @@
+//! C11 — ProbOrdMinHash2 selects per position independently of sequence order (exact, selected-indices hook)
 use crate::common::*;
+use crate::gen::*;
+use fnv::FnvHasher;
+use probminhash::probminhasher::probordminhash2::ProbOrdMinHash2;
+use rand::Rng as _;
+use rayon::prelude::*;
+use serde_json::{json, Value};
+use std::collections::HashMap;
+
+/// (element, occurrence number) of every index of a sequence
+pub fn pairs_of(seq: &[u64]) -> Vec<(u64, u32)> {
+    let mut cnt: HashMap<u64, u32> = HashMap::new();
+    seq.iter()
+        .map(|e| {
+            let c = cnt.entry(*e).or_insert(0);
+            *c += 1;
+            (*e, *c)
+        })
+        .collect()
+}
+
+struct Out {
+    nexec: u64,
+    fail: Option<(String, String)>,
+    case: Value,
+    tuples: Vec<(Vec<u64>, u64)>,
+}
+
+fn check_indices(m: usize, l: usize, len: usize, idx: &[u64]) -> Result<(), String> {
+    if idx.len() != m * l {
+        return Err(format!("selected index array has length {} instead of m*l={}", idx.len(), m * l));
+    }
+    for p in 0..m {
+        let s = &idx[p * l..(p + 1) * l];
+        for j in 0..l {
+            if s[j] as usize >= len {
+                return Err(format!("position {}: selected index {} is not an index of the sequence (length {})", p, s[j], len));
+            }
+            if j > 0 && s[j] <= s[j - 1] {
+                return Err(format!("position {}: selected indices {:?} are not strictly increasing (distinct, in sequence order)", p, s));
+            }
+        }
+    }
+    Ok(())
+}
+
+fn one_case(i: u64, seed: u64) -> Out {
+    let mut rng = rng_from(mix(&[seed, i]));
+    let l = match rng.random_range(0..10) {
+        0..=3 => 1,
+        4 | 5 => 2,
+        6 | 7 => 3,
+        8 => rng.random_range(4..6),
+        _ => rng.random_range(6..16),
+    };
+    let m = [1usize, 2, 3, 8, 32, 64, 300][rng.random_range(0..7)];
+    let len = rng.random_range(l..(l + 60));
+    let alphabet = match rng.random_range(0..4) {
+        0 => len.max(1) * 4, // mostly distinct
+        1 => rng.random_range(1..=3),
+        2 => (len / 3).max(1),
+        _ => rng.random_range(1..=len.max(1)),
+    };
+    let labels = fresh_ids(&mut rng, alphabet, 0);
+    let distinct_mode = rng.random_range(0..3) == 0;
+    let seq: Vec<u64> = if distinct_mode { fresh_ids(&mut rng, len, 0) } else { (0..len).map(|_| labels[rng.random_range(0..alphabet)]).collect() };
+    let case = json!({"m": m, "l": l, "len": len, "alphabet": if distinct_mode { len } else { alphabet }, "sequence": seq.iter().take(24).collect::<Vec<_>>()});
+    let mut out = Out { nexec: 0, fail: None, case, tuples: vec![] };
+    let mut sk = ProbOrdMinHash2::<FnvHasher>::new(m as u32, l);
+    // unrelated earlier calls on the same instance
+    for _ in 0..rng.random_range(0..=5) {
+        let n = rng.random_range(l..l + 30);
+        let other: Vec<u64> = (0..n).map(|_| if rng.random_range(0..2) == 0 { labels[rng.random_range(0..alphabet)] } else { fresh_ids(&mut rng, 1, 0)[0] }).collect();
+        sk.hash_set(&other);
+        out.nexec += 1;
+    }
+    let sig0 = sk.hash_set(&seq);
+    let idx0 = sk.verif_selected_indices();
+    out.nexec += 1;
+    if let Err(w) = check_indices(m, l, len, &idx0) {
+        out.fail = Some(("C11/indices".into(), w));
+        return out;
+    }
+    let pairs0 = pairs_of(&seq);
+    // reference: per position the set of selected pairs, and the spelled tuple
+    let sel0: Vec<Vec<(u64, u32)>> = (0..m)
+        .map(|p| {
+            let mut v: Vec<(u64, u32)> = idx0[p * l..(p + 1) * l].iter().map(|&ix| pairs0[ix as usize]).collect();
+            v.sort_unstable();
+            v
+        })
+        .collect();
+    for p in 0..m {
+        out.tuples.push((idx0[p * l..(p + 1) * l].iter().map(|&ix| seq[ix as usize]).collect(), sig0[p]));
+    }
+    // permutations
+    let mut perms: Vec<(&str, Vec<u64>)> = Vec::new();
+    let mut rev = seq.clone();
+    rev.reverse();
+    perms.push(("reversed", rev));
+    let mut rot = seq.clone();
+    rot.rotate_left(rng.random_range(0..len.max(1)));
+    perms.push(("rotated", rot));
+    let mut sh = seq.clone();
+    shuffle(&mut sh, &mut rng);
+    perms.push(("shuffled", sh));
+    let mut sorted = seq.clone();
+    sorted.sort_unstable();
+    perms.push(("sorted", sorted));
+    // winners last / first: indices selected in the first run moved to the end / the beginning, keeping relative order
+    let mut is_win = vec![false; len];
+    for &ix in &idx0 {
+        is_win[ix as usize] = true;
+    }
+    let losers: Vec<u64> = (0..len).filter(|&i| !is_win[i]).map(|i| seq[i]).collect();
+    let winners: Vec<u64> = (0..len).filter(|&i| is_win[i]).map(|i| seq[i]).collect();
+    let mut wl = losers.clone();
+    wl.extend_from_slice(&winners);
+    perms.push(("winners_last", wl));
+    let mut wf = winners;
+    wf.extend_from_slice(&losers);
+    perms.push(("winners_first", wf));
+    for (name, pseq) in perms {
+        // occasionally an unrelated call in between
+        if rng.random_range(0..4) == 0 {
+            sk.hash_set(&fresh_ids(&mut rng, l + 3, 0));
+            out.nexec += 1;
+        }
+        let sig = sk.hash_set(&pseq);
+        let idx = sk.verif_selected_indices();
+        out.nexec += 1;
+        if let Err(w) = check_indices(m, l, len, &idx) {
+            out.fail = Some(("C11/indices".into(), format!("{}: {}", name, w)));
+            return out;
+        }
+        let pp = pairs_of(&pseq);
+        for p in 0..m {
+            let mut v: Vec<(u64, u32)> = idx[p * l..(p + 1) * l].iter().map(|&ix| pp[ix as usize]).collect();
+            v.sort_unstable();
+            if v != sel0[p] {
+                out.fail = Some(("C11/selection-depends-on-order".into(), format!("position {}: the (element, occurrence) pairs selected for the {} sequence differ from those selected for the original order: {:?} vs {:?}", p, name, &v[..v.len().min(4)], &sel0[p][..sel0[p].len().min(4)])));
+                return out;
+            }
+            if l == 1 && sig[p] != sig0[p] {
+                out.fail = Some(("C11/l1-signature-not-invariant".into(), format!("l=1: position {} of the signature changes under the '{}' permutation", p, name)));
+                return out;
+            }
+            out.tuples.push((idx[p * l..(p + 1) * l].iter().map(|&ix| pseq[ix as usize]).collect(), sig[p]));
+        }
+    }
+    // same input again gives the same answer on the same instance
+    let sig1 = sk.hash_set(&seq);
+    out.nexec += 1;
+    if sig1 != sig0 {
+        out.fail = Some(("C11/not-repeatable".into(), "hashing the same sequence again on the same instance gives another signature".into()));
+    }
+    out
+}
 
 pub fn run(rep: &mut Report) {
-    let _ = rep;
-    eprintln!("C11 not implemented yet");
+    quiet_panics();
+    rep.rule = "per case: sequence (length l..l+60, alphabet from 1 symbol to all distinct), m in {1..300}, l in 1..15; hash_set on one instance after 0-5 unrelated earlier calls, for the sequence and its reversed / rotated / shuffled / sorted / winners-last / winners-first permutations; from the selected-indices hook: per position l strictly increasing valid indices; the set of (element, occurrence) pairs per position is the same for every permutation; l=1 signatures identical; across the case the signature value and the spelled l-tuple determine each other. Distinct = digest of (m, l, sequence); non-trivial when len > l".into();
+    let n: u64 = rep.tier.pick(30_000, 1_000_000);
+    let seed = subseed(rep.seed, "C11", &[]);
+    let only = rep.only_cell.clone();
+    let res: Vec<(u64, Result<Out, String>)> = (0..n)
+        .into_par_iter()
+        .filter(|i| only.as_ref().map(|c| c == &format!("case{}", i) || c == "cases").unwrap_or(true))
+        .map(|i| (i, catch(move || one_case(i, seed))))
+        .collect();
+    for (i, r) in res {
+        let cell = format!("case{}", i);
+        match r {
+            Ok(mut o) => {
+                rep.evaluations += o.nexec;
+                rep.count("cases", 1);
+                rep.distinct.insert(fnv64(o.case.to_string().as_bytes()));
+                if i < 3 {
+                    rep.sample(o.case.clone());
+                }
+                // tuple <-> value must be a bijection within the case (one instance, one seed)
+                if o.fail.is_none() {
+                    let mut t2v: HashMap<Vec<u64>, u64> = HashMap::new();
+                    let mut v2t: HashMap<u64, Vec<u64>> = HashMap::new();
+                    for (t, v) in o.tuples.drain(..) {
+                        if let Some(prev) = t2v.insert(t.clone(), v) {
+                            if prev != v {
+                                o.fail = Some(("C11/signature-not-function-of-tuple".into(), format!("the same spelled tuple {:?} gives signature values {:#x} and {:#x}", &t[..t.len().min(4)], prev, v)));
+                                break;
+                            }
+                        }
+                        if let Some(prev) = v2t.insert(v, t.clone()) {
+                            if prev != t {
+                                o.fail = Some(("C11/signature-not-function-of-tuple".into(), format!("signature value {:#x} stands for two different spelled tuples", v)));
+                                break;
+                            }
+                        }
+                    }
+                    rep.count("tuple_table_entries", t2v.len() as u64);
+                }
+                if let Some((k, w)) = o.fail {
+                    rep.violation(&k, &cell, w, o.case);
+                }
+            }
+            Err(p) => rep.violation("C11/panic", &cell, format!("panic: {}", p), json!({"case": i})),
+        }
+    }
+    collect_ticks(rep);
+    rep.assumptions.push("an index i of a sequence t denotes the pair (t[i], number of occurrences of t[i] in t[..=i])".into());
 }
